@@ -1186,6 +1186,9 @@ def replay(d):
         res = startup_cycle(n, seed, binary)
     elif tag == "redefinition-cycle":
         res = redefinition_cycle(n, seed, binary, int(sample.get("workers", 4)))
+    elif tag == "traffic-cycle":
+        import e2e_e2etraffic                     # C01 / C02 / C13: traffic cycles (a module of their own, importing this one)
+        return e2e_e2etraffic.replay(n, seed, sample, d.get("property"))
     else:
         print("unknown e2e cycle", tag)
         return 2
